@@ -30,13 +30,17 @@ package nexus
 //@   allocates []*tree.Tree, []string
 //@   assigns n.trees, n.treeNames, n.HasTrees, elems(n.trees), elems(n.treeNames)
 //@   ensures [flag_set_with_a_tree] n.HasTrees && len(n.trees) == old(len(n.trees)) + 1 && n.trees[len(n.trees) - 1] == t
+//@   ensures [the_name_is_added_together_with_the_tree_at_the_same_position] len(n.treeNames) == old(len(n.treeNames)) + 1 && n.treeNames[len(n.treeNames) - 1] == name
 
 // calls it(name, tree) once per tree in file order (the callback's effects are havocked by the engine)
 //@ func (*io/nexus.Nexus).IterateTrees
+//@   entry [names_and_trees_are_added_in_pairs] len(n.treeNames) == len(n.trees)
+//@   flag countcalls
 //@   requires n != nil
 //@   assigns nothing
 //@   loop 1
 //@     complete [all_iterations_no_early_exit]
+//@     step [every_tree_of_the_file_is_handed_to_the_callback_exactly_once] ghost(fncalls_it) == atHead(ghost(fncalls_it)) + 1
 
 //@ func (*io/nexus.Nexus).FirstTree
 //@   requires n != nil
